@@ -62,6 +62,7 @@ Rfc6979SignFrom(d, e, i) ==
       ELSE LET sg == SignWithNonce(d, e, k) IN IF sg[1] = "retry" THEN Rfc6979SignFrom(d, e, i + 1) ELSE sg
 Rfc6979Sign(d, e) == Rfc6979SignFrom(d, e, 1)
 
+PreHashName == <<118, 101, 114, 105, 102, 47, 100, 111, 109, 97, 105, 110>>      \* "verif/domain"
 AuxZero == Rep(0, 32)          \* the replayer's entropy reader for BIP-340 signing delivers 32 zero bytes
 
 PointOps1 == {"pt.Double", "pt.Negate", "pt.Set"}
@@ -203,6 +204,31 @@ Step(st, ev) ==
     [] ev.op = "key.ParseASN1" ->       \* ParseASN1PublicKey(buf[b]): a NEW public-key object, or nothing
          LET d == ParseSpki(st.buf[ev.b]) IN
          IF d[1] = "ok" THEN Ok([st EXCEPT !.pub = EncPt(d[2]), !.priv = Nil]) ELSE Err(st)
+    (* ---- key comparison (crypto.PublicKey / crypto.PrivateKey Equal), against a key object freshly built from buf[b] ---- *)
+    [] ev.op = "key.PubEqual" ->
+         IF st.pub = Nil THEN Panic(st)
+         ELSE LET d == DecodeB(st.buf[ev.b]) IN
+              IF d[1] = "ok" /\ ~IsInf(d[2]) THEN OkR(st, IF EncPt(d[2]) = st.pub THEN 1 ELSE 0) ELSE Err(st)
+    [] ev.op = "key.PrivEqual" ->
+         IF st.priv = Nil THEN Panic(st)
+         ELSE LET b == st.buf[ev.b] IN
+              IF Len(b) = W /\ (OS2IP(b) \prec N) /\ ~BigEq(OS2IP(b), 0) THEN OkR(st, IF b = st.priv THEN 1 ELSE 0) ELSE Err(st)
+    [] ev.op = "spub.Equal" ->
+         IF st.spub = Nil THEN Panic(st)
+         ELSE LET b == st.buf[ev.b] IN
+              IF Len(b) = W /\ LiftXEven(OS2IP(b))[1] THEN OkR(st, IF b = st.spub THEN 1 ELSE 0) ELSE Err(st)
+    [] ev.op = "skey.Equal" ->
+         IF st.spriv = Nil THEN Panic(st)
+         ELSE LET b == st.buf[ev.b] IN
+              IF Len(b) = W /\ (OS2IP(b) \prec N) /\ ~BigEq(OS2IP(b), 0) THEN OkR(st, IF b = st.spriv THEN 1 ELSE 0) ELSE Err(st)
+    [] ev.op = "key.EqualForeign" ->    \* Equal with an argument of another key type (c: 0 pub, 1 priv, 2 spub, 3 spriv is the receiver): never equal
+         IF (CASE ev.c = 0 -> st.pub [] ev.c = 1 -> st.priv [] ev.c = 2 -> st.spub [] OTHER -> st.spriv) = Nil THEN Panic(st) ELSE OkR(st, 0)
+    [] ev.op = "btc.PreHash" ->         \* PreHashSchnorrMessage(name, buf[m]) -> buf[b]; c: 0 a valid name, 1 the empty name, 2 invalid UTF-8
+         IF ev.c # 0 THEN Err(st) ELSE Ok(SetBuf(st, ev.b, TaggedHash(PreHashName, st.buf[ev.m])))
+    (* ---- key generation from the system RNG: WHICH key is generated is not specified; the model takes a representative and the  *)
+    (* trace specification accepts any valid, consistent key pair and adopts it (Trace_Api)                                         *)
+    [] ev.op = "key.Generate"  -> Ok([st EXCEPT !.priv = EncSc(2), !.pub = EncPt(PMulG(2))])
+    [] ev.op = "skey.Generate" -> Ok([st EXCEPT !.spriv = EncSc(2), !.spub = I2OSP(PMulG(2)[1], W)])
     [] ev.op = "skey.Sign" ->           \* SchnorrPrivateKey.Sign(32 zero bytes of entropy, buf[m]) -> buf[b]
          IF st.spriv = Nil THEN Panic(st)
          ELSE LET sg == SignB(st.spriv, st.buf[ev.m], AuxZero) IN IF sg[1] = "ok" THEN Ok(SetBuf(st, ev.b, sg[2])) ELSE Err(st)
@@ -251,7 +277,7 @@ StateOKDelta(o, st) ==
 
 IsEnv(ev)      == ev.op \in {"env.LoadBuf", "env.MutateBuf", "env.AppendByte", "env.MutateScalar", "env.MutatePoint", "env.ForgetPoint"}
 IsKeyCtor(ev)  == ev.op \in {"key.NewPrivate", "key.NewPrivateFromScalar", "key.NewPublic", "key.NewPublicFromPoint",
-                              "skey.New", "skey.FromECDSA", "spub.New", "spub.FromPoint", "spub.FromECDSA", "key.Recover", "key.ParseASN1"}
+                              "skey.New", "skey.FromECDSA", "spub.New", "spub.FromPoint", "spub.FromECDSA", "key.Recover", "key.ParseASN1", "key.Generate", "skey.Generate"}
 
 (* a step is well behaved: failure => frame; caller actions and everything that is not a key constructor leave keys alone *)
 StepOKR(st, ev, r) ==
